@@ -676,4 +676,273 @@ theorem run_frame_mem (E : Env α) (ops : List (Op α)) (w : WellConns α) (hp :
 end anyorder
 
 end track
+/-- what `order()` looks at -/
+def Conn.place (c : Conn α) : Int × Int × α := (c.i, c.j, c.depth)
+
+section
+variable [LinearOrder α] [Sub α]
+
+theorem tkey_of_place (F : Fns α) (oi oj : Int) (oz : α) (c d : Conn α) (h : c.place = d.place) :
+    tkey F oi oj oz c = tkey F oi oj oz d := by
+  unfold Conn.place at h
+  injection h with h1 h2
+  injection h2 with h2 h3
+  unfold tkey
+  rw [h1, h2, h3]
+
+theorem tracked_of_same_place (F : Fns α) (oi oj : Int) (oz : α) (l1 l2 : List (Conn α))
+    (h : l1.map Conn.place = l2.map Conn.place) (ht : Tracked F oi oj oz l1) : Tracked F oi oj oz l2 := by
+  induction l1 generalizing l2 oi oj oz with
+  | nil =>
+    cases l2 with
+    | nil => trivial
+    | cons d ds => simp at h
+  | cons c cs ih =>
+    cases l2 with
+    | nil => simp at h
+    | cons d ds =>
+      simp only [List.map_cons, List.cons.injEq] at h
+      obtain ⟨hcd, hrest⟩ := h
+      obtain ⟨hmin, htail⟩ := ht
+      have hpl : c.i = d.i ∧ c.j = d.j ∧ c.depth = d.depth := by
+        unfold Conn.place at hcd
+        injection hcd with h1 h2
+        injection h2 with h2 h3
+        exact ⟨h1, h2, h3⟩
+      refine ⟨?_, ?_⟩
+      · intro e he
+        -- e corresponds to some element of cs with the same place
+        obtain ⟨n, hn⟩ := List.mem_iff_getElem?.mp he
+        have hlen : (cs.map Conn.place)[n]? = (ds.map Conn.place)[n]? := by rw [hrest]
+        simp only [List.getElem?_map, hn, Option.map_some] at hlen
+        cases hc : cs[n]? with
+        | none => rw [hc] at hlen; simp at hlen
+        | some e' =>
+          rw [hc] at hlen
+          simp only [Option.map_some, Option.some.injEq] at hlen
+          rw [← tkey_of_place F oi oj oz c d hcd, ← tkey_of_place F oi oj oz e' e hlen]
+          exact hmin e' (List.mem_of_getElem? hc)
+      · rw [← hpl.1, ← hpl.2.1, ← hpl.2.2]
+        exact ih _ _ _ ds hrest htail
+
+theorem depthSorted_of_same_place (l1 l2 : List (Conn α)) (h : l1.map Conn.place = l2.map Conn.place)
+    (hs : DepthSorted l1) : DepthSorted l2 := by
+  unfold DepthSorted at *
+  have h1 : l1.map (·.depth) = l2.map (·.depth) := by
+    have := congrArg (List.map (fun p : Int × Int × α => p.2.2)) h
+    rw [List.map_map, List.map_map] at this
+    exact this
+  have e1 : List.Pairwise (fun a b : α => ¬ b < a) (l1.map (·.depth)) := by
+    rw [List.pairwise_map]; exact hs
+  rw [h1, List.pairwise_map] at e1
+  exact e1
+
+/-- Being in COMPORD order depends only on the cells and depths along the list. -/
+theorem ordered_of_same_place (F : Fns α) (ord : Order) (headI headJ : Int) (l1 l2 : List (Conn α))
+    (h : l1.map Conn.place = l2.map Conn.place) (ho : reorder F ord headI headJ l1 = l1) :
+    reorder F ord headI headJ l2 = l2 := by
+  cases ord with
+  | INPUT => rfl
+  | TRACK =>
+    have ht : Tracked F headI headJ F.zero l1 := by
+      have := tracked_trackFrom F l1.length headI headJ F.zero l1 (Nat.le_refl _)
+      have ho' : trackFrom F l1.length headI headJ F.zero l1 = l1 := ho
+      rw [ho'] at this
+      exact this
+    exact trackFrom_of_tracked F _ _ _ _ _ (tracked_of_same_place F _ _ _ l1 l2 h ht)
+  | DEPTH =>
+    have hs : DepthSorted l1 := by
+      have := orderDEPTH_sorted l1
+      have ho' : orderDEPTH l1 = l1 := ho
+      rw [ho'] at this
+      exact this
+    have hs2 := depthSorted_of_same_place l1 l2 h hs
+    unfold reorder orderDEPTH
+    simpa using foldl_insert_of_sorted l2 [] (by simpa using hs2)
+
+
+/-! ### COMPDAT re-entry under any COMPORD -/
+
+/-- Every connection's depth is the depth the grid reports for its cell (true of every
+connection `loadCOMPDAT` creates or replaces). -/
+def DepthOfGrid (grid : Grid α) (cs : List (Conn α)) : Prop :=
+  ∀ c ∈ cs, ∃ cell, grid c.i c.j c.k = some (cell, c.depth)
+
+theorem upsert_length_ge (one : α) (cs : List (Conn α)) (n : NewConn α) :
+    cs.length ≤ (upsert one cs n).length := (upsert_idPrefix one cs n).length_le
+
+theorem mem_replaceFirst' {β : Type} (p : β → Bool) (f : β → β) (l : List β) (x : β)
+    (h : x ∈ replaceFirst p f l) : x ∈ l ∨ ∃ y ∈ l, p y = true ∧ x = f y := by
+  induction l with
+  | nil => simp [replaceFirst] at h
+  | cons c cs ih =>
+    unfold replaceFirst at h
+    split at h
+    · rename_i hp
+      rcases List.mem_cons.mp h with rfl | h
+      · right; exact ⟨c, List.mem_cons_self, hp, rfl⟩
+      · left; exact List.mem_cons_of_mem _ h
+    · rcases List.mem_cons.mp h with rfl | h
+      · left; exact List.mem_cons_self
+      · rcases ih h with h | ⟨y, hy, hpy, rfl⟩
+        · left; exact List.mem_cons_of_mem _ h
+        · right; exact ⟨y, List.mem_cons_of_mem _ hy, hpy, rfl⟩
+
+theorem upsert_depthOfGrid (grid : Grid α) (one : α) (cs : List (Conn α)) (n : NewConn α)
+    (hn : ∃ cell, grid n.i n.j n.k = some (cell, n.depth)) (h : DepthOfGrid grid cs) :
+    DepthOfGrid grid (upsert one cs n) := by
+  intro c hc
+  unfold upsert at hc
+  split at hc
+  · rcases mem_replaceFirst' _ _ _ _ hc with hc | ⟨y, _, _, rfl⟩
+    · exact h c hc
+    · exact hn
+  · rcases List.mem_append.mp hc with hc | hc
+    · exact h c hc
+    · rw [List.mem_singleton.mp hc]; exact hn
+
+/-- A replacement (no connection added) leaves cells and depths along the list as they were. -/
+theorem upsert_place (grid : Grid α) (one : α) (cs : List (Conn α)) (n : NewConn α)
+    (hn : ∃ cell, grid n.i n.j n.k = some (cell, n.depth)) (h : DepthOfGrid grid cs)
+    (hlen : (upsert one cs n).length = cs.length) :
+    (upsert one cs n).map Conn.place = cs.map Conn.place := by
+  unfold upsert at hlen ⊢
+  split
+  · rename_i hany
+    -- replace in place: the replaced connection sits in cell (n.i, n.j, n.k), whose depth is n.depth
+    have key : ∀ l : List (Conn α), (∀ c ∈ l, ∃ cell, grid c.i c.j c.k = some (cell, c.depth)) →
+        (replaceFirst (fun c => c.at n.i n.j n.k) (replaceWith one n) l).map Conn.place = l.map Conn.place := by
+      intro l
+      induction l with
+      | nil => intro _; rfl
+      | cons c cs ih =>
+        intro hl
+        unfold replaceFirst
+        split
+        · rename_i hat
+          obtain ⟨h1, h2, h3⟩ := at_eq_true hat
+          obtain ⟨cell, hcell⟩ := hl c List.mem_cons_self
+          obtain ⟨cell', hcell'⟩ := hn
+          rw [h1, h2, h3, hcell'] at hcell
+          have hd : n.depth = c.depth := by
+            injection hcell with hcell; injection hcell
+          simp only [List.map_cons, List.cons.injEq, and_true]
+          unfold Conn.place replaceWith
+          simp [h1, h2, hd]
+        · simp only [List.map_cons, List.cons.injEq, true_and]
+          exact ih (fun d hd => hl d (List.mem_cons_of_mem _ hd))
+    exact key cs h
+  · rename_i hany
+    rw [if_neg hany] at hlen
+    simp at hlen
+
+end
+
+section
+variable [LinearOrder α] [Sub α] [Add α] [Mul α] [Div α]
+
+theorem compdatLoop_length_ge (F : Fns α) (one : α) (grid : Grid α) (I J : Int) (st : State) (inp : Input α)
+    (ks : List Int) (cs : List (Conn α)) : cs.length ≤ (compdatLoop F one grid I J st inp ks cs).length :=
+  (compdatLoop_idPrefix F one grid I J st inp ks cs).length_le
+
+theorem compdatLoop_depthOfGrid (F : Fns α) (one : α) (grid : Grid α) (I J : Int) (st : State) (inp : Input α)
+    (ks : List Int) (cs : List (Conn α)) (h : DepthOfGrid grid cs) :
+    DepthOfGrid grid (compdatLoop F one grid I J st inp ks cs) := by
+  induction ks generalizing cs with
+  | nil => exact h
+  | cons k ks ih =>
+    unfold compdatLoop
+    split
+    · exact ih cs h
+    · rename_i cell depth hg
+      exact ih _ (upsert_depthOfGrid grid one cs _ ⟨cell, hg⟩ h)
+
+theorem compdatLoop_place (F : Fns α) (one : α) (grid : Grid α) (I J : Int) (st : State) (inp : Input α)
+    (ks : List Int) (cs : List (Conn α)) (h : DepthOfGrid grid cs)
+    (hlen : (compdatLoop F one grid I J st inp ks cs).length = cs.length) :
+    (compdatLoop F one grid I J st inp ks cs).map Conn.place = cs.map Conn.place := by
+  induction ks generalizing cs with
+  | nil => rfl
+  | cons k ks ih =>
+    cases hg : grid I J k with
+    | none =>
+      simp only [compdatLoop, hg] at hlen ⊢
+      exact ih cs h hlen
+    | some p =>
+      obtain ⟨cell, depth⟩ := p
+      simp only [compdatLoop, hg] at hlen ⊢
+      generalize hn : ({ i := I, j := J, k := k, state := st, dir := inp.dir, ctf := ctfOf F inp cell, fromDeck := ctfFromDeck F inp, depth := depth } : NewConn α) = n at hlen ⊢
+      have hgn : ∃ cell, grid n.i n.j n.k = some (cell, n.depth) := by
+        subst hn; exact ⟨cell, hg⟩
+      have h1 := upsert_length_ge one cs n
+      have h2 := compdatLoop_length_ge F one grid I J st inp ks (upsert one cs n)
+      have hl1 : (upsert one cs n).length = cs.length := by omega
+      rw [ih _ (upsert_depthOfGrid grid one cs n hgn h) (by omega)]
+      exact upsert_place grid one cs n hgn h hl1
+
+/-- **COMPDAT re-entry under any COMPORD**: when the record adds no connection (every cell it
+addresses is inactive or already connected) on a well that is in its COMPORD order, the
+`order()` that follows is the identity — so `compdat_frame` and `compdat_keeps_identities`
+hold position by position for TRACK and DEPTH too. -/
+theorem step_compdat_reentry (E : Env α) (w : WellConns α) (ho : Ordered E w.conns)
+    (hd : DepthOfGrid E.grid w.conns) (r : CompdatRec α)
+    (hlen : (loadCompdat E.F E.one E.grid E.headI E.headJ r w.conns).length = w.conns.length) :
+    (step E w (.compdat r)).conns = loadCompdat E.F E.one E.grid E.headI E.headJ r w.conns := by
+  simp only [step]
+  apply ordered_of_same_place E.F E.ord E.headI E.headJ w.conns _ _ ho
+  unfold loadCompdat at hlen ⊢
+  exact (compdatLoop_place _ _ _ _ _ _ _ _ _ hd hlen).symm
+
+/-- The depth invariant holds along every history. -/
+theorem step_depthOfGrid (E : Env α) (w : WellConns α) (hd : DepthOfGrid E.grid w.conns) (op : Op α) :
+    DepthOfGrid E.grid (step E w op).conns := by
+  have perm_inv : ∀ l : List (Conn α), DepthOfGrid E.grid l →
+      DepthOfGrid E.grid (reorder E.F E.ord E.headI E.headJ l) := by
+    intro l hl c hc
+    exact hl c ((reorder_perm _ _ _ _ _).mem_iff.mp hc)
+  have map_inv : ∀ (f : Conn α → Conn α), (∀ c, (f c).i = c.i ∧ (f c).j = c.j ∧ (f c).k = c.k ∧ (f c).depth = c.depth) →
+      ∀ l, DepthOfGrid E.grid l → DepthOfGrid E.grid (l.map f) := by
+    intro f hf l hl c hc
+    obtain ⟨d, hd', rfl⟩ := List.mem_map.mp hc
+    obtain ⟨h1, h2, h3, h4⟩ := hf d
+    rw [h1, h2, h3, h4]
+    exact hl d hd'
+  cases op with
+  | compdat r =>
+    simp only [step]
+    apply perm_inv
+    unfold loadCompdat
+    exact compdatLoop_depthOfGrid _ _ _ _ _ _ _ _ _ hd
+  | wpimult f s =>
+    simp only [step]; split
+    · exact hd
+    · apply perm_inv
+      unfold wpimultSel
+      exact map_inv _ (by intro c; split <;> exact ⟨rfl, rfl, rfl, rfl⟩) _ hd
+  | welopen st s =>
+    simp only [step]; split
+    · exact hd
+    · apply perm_inv
+      unfold welopenSel
+      exact map_inv _ (by intro c; split <;> exact ⟨rfl, rfl, rfl, rfl⟩) _ hd
+  | complump n s =>
+    simp only [step]
+    apply perm_inv
+    unfold complumpSel
+    exact map_inv _ (by intro c; split <;> exact ⟨rfl, rfl, rfl, rfl⟩) _ hd
+  | endStep =>
+    simp only [step]; split
+    · exact hd
+    · apply perm_inv
+      unfold wpimultAll
+      exact map_inv (scaleWellPi _) (fun c => ⟨rfl, rfl, rfl, rfl⟩) _ hd
+
+theorem run_depthOfGrid (E : Env α) (ops : List (Op α)) (w : WellConns α) (hd : DepthOfGrid E.grid w.conns) :
+    DepthOfGrid E.grid (run E ops w).conns := by
+  induction ops generalizing w with
+  | nil => exact hd
+  | cons op ops ih => unfold run; exact ih _ (step_depthOfGrid E w hd op)
+
+end
+
 end OpmVerif.Conns
